@@ -1761,6 +1761,148 @@ class Canon:
         _paths.CTOR_FIELDS.clear()
         _paths.CTOR_FIELDS.update({k: v for k, v in fields.items() if not any("*" in o for _, o in v)})
 
+    def _sroa(self, stmts, module, look):
+        """x = _Helper(args)  with _Helper a private plain class the tables do not know, x used only as x.m(..) / x.f and never handed
+        on: the object is its fields.  The constructor's `self.f = E` become locals x__f, every method runs in place on those locals
+        (scalar replacement).  Returns the statements and a lookup that resolves x.m(..) to the method over the locals."""
+        known = known_defs()
+        objs = {}
+        for i, s_ in enumerate(stmts):
+            if not (isinstance(s_, ast.Assign) and len(s_.targets) == 1 and isinstance(s_.targets[0], ast.Name) and isinstance(s_.value, ast.Call)
+                    and isinstance(s_.value.func, ast.Name)):
+                continue
+            cname, x = s_.value.func.id, s_.targets[0].id
+            c = module.classes.get(cname)
+            if c is None or not cname.startswith("_") or f"class:{cname}" in known or c.is_dataclass or [b_ for b_ in c.node.bases if u(b_) != "object"] \
+                    or c.node.keywords or any(n_.startswith("__") and n_ not in ("__init__",) for n_ in c.methods) \
+                    or any(m_.decorator_list for m_ in c.methods.values()):
+                continue
+            if sum(1 for b_ in stmts for n in ast.walk(b_) if isinstance(n, ast.Name) and n.id == x and not isinstance(n.ctx, ast.Load)) != 1:
+                continue
+            fields = set()
+            ok = True
+            for m_ in c.methods.values():
+                sn = m_.args.args[0].arg if m_.args.args else None
+                if sn is None or m_.args.vararg or m_.args.kwarg:
+                    ok = False
+                    break
+                for n in ast.walk(m_):
+                    if isinstance(n, ast.Attribute) and isinstance(n.value, ast.Name) and n.value.id == sn and n.attr not in c.methods:
+                        fields.add(n.attr)
+                # self used other than as self.f / self.m(..)
+                attr_bases = {id(n.value) for n in ast.walk(m_) if isinstance(n, ast.Attribute)}
+                if any(isinstance(n, ast.Name) and n.id == sn and id(n) not in attr_bases for n in ast.walk(m_)):
+                    ok = False
+                    break
+            # the fields are rebound only by the constructor, which is a list of `self.f = E` (methods may change what a field holds,
+            # not which object it is: a rebinding inside an inlined method would be taken for a local of that method)
+            init = c.methods.get("__init__")
+            for mn_, m_ in c.methods.items():
+                sn = m_.args.args[0].arg
+                stores = [n for n in ast.walk(m_) if isinstance(n, ast.Attribute) and isinstance(n.value, ast.Name) and n.value.id == sn and isinstance(n.ctx, (ast.Store, ast.Del))]
+                if mn_ != "__init__" and stores:
+                    ok = False
+            if init is not None:
+                for st in real_body(init):
+                    tg = st.targets[0] if isinstance(st, ast.Assign) and len(st.targets) == 1 else (st.target if isinstance(st, ast.AnnAssign) else None)
+                    if not (isinstance(tg, ast.Attribute) and isinstance(tg.value, ast.Name) and tg.value.id == init.args.args[0].arg) or getattr(st, "value", None) is None:
+                        ok = False
+                if norm.bind_call(init, s_.value, True) is None:
+                    ok = False
+            elif s_.value.args or s_.value.keywords:
+                ok = False
+            if not ok:
+                continue
+            # every use of x is x.m(..) or x.f
+            uses_ok = True
+            attr_of = {id(n.value): n for b_ in stmts for n in ast.walk(b_) if isinstance(n, ast.Attribute)}
+            call_funcs = {id(n.func) for b_ in stmts for n in ast.walk(b_) if isinstance(n, ast.Call)}
+            for b_ in stmts:
+                for n in ast.walk(b_):
+                    if isinstance(n, ast.Name) and n.id == x and isinstance(n.ctx, ast.Load):
+                        a = attr_of.get(id(n))
+                        if a is None or not ((a.attr in c.methods and id(a) in call_funcs and a.attr != "__init__") or (a.attr in fields and a.attr not in c.methods)):
+                            uses_ok = False
+            if not uses_ok:
+                continue
+            objs[x] = (c, i, fields)
+        if not objs:
+            return stmts, look
+        stmts = list(stmts)
+
+        def rewritten(x, c, m_):
+            m2 = copy.deepcopy(m_)
+            sn = m2.args.args[0].arg
+
+            class F(ast.NodeTransformer):
+                def visit_Attribute(self, node):
+                    if isinstance(node.value, ast.Name) and node.value.id == sn and node.attr not in c.methods:
+                        return ast.copy_location(ast.Name(id=f"{x}__{node.attr.strip('_')}", ctx=node.ctx), node)
+                    return self.generic_visit(node)
+            class A(ast.NodeTransformer):
+                # self.f: T = E  is a plain store once the field is a local
+                def visit_AnnAssign(self, node):
+                    if isinstance(node.target, ast.Attribute) and isinstance(node.target.value, ast.Name) and node.target.value.id == sn:
+                        if node.value is None:
+                            return ast.copy_location(ast.Pass(), node)
+                        return ast.copy_location(ast.Assign(targets=[node.target], value=node.value), node)
+                    return node
+            m2.body = [F().visit(A().visit(b_)) for b_ in m2.body]
+            ast.fix_missing_locations(m2)
+            self._keepalive.append(m2)
+            return m2
+        table = {}
+        for x, (c, i, fields) in objs.items():
+            for mn, m_ in c.methods.items():
+                table[(x, mn)] = rewritten(x, c, m_)
+
+        def prep(body):
+            return lift_walrus(lift_ifexp(body))
+
+        def look2(call):
+            f = call.func
+            if isinstance(f, ast.Attribute) and isinstance(f.value, ast.Name) and (f.value.id, f.attr) in table:
+                return table[(f.value.id, f.attr)], True, prep
+            return look(call)
+        look2.context = getattr(look, "context", None)
+        # the constructor call becomes the field initialisations
+        splice = {}
+        for x, (c, i, fields) in objs.items():
+            call = stmts[i].value
+            new = []
+            if "__init__" in c.methods:
+                init = c.methods["__init__"]
+                binds = norm.bind_call(init, call, True)
+                pre = []
+                sub = {}
+                for p_, a_ in binds.items():
+                    if _simple_arg(a_):
+                        sub[p_] = a_
+                    else:
+                        self._keepalive.append(a_)
+                        nm = f"{x}__arg_{p_}"
+                        pre.append(ast.Assign(targets=[ast.Name(id=nm, ctx=ast.Store())], value=a_))
+                        sub[p_] = ast.Name(id=nm, ctx=ast.Load())
+                new += pre
+                for st in real_body(table[(x, "__init__")]):
+                    st = norm._Subst(dict(sub)).visit(copy.deepcopy(st))
+                    if not isinstance(st, ast.Pass):
+                        new.append(st)
+            for n_ in new:
+                ast.copy_location(n_, stmts[i])
+                ast.fix_missing_locations(n_)
+            splice[i] = new
+        stmts = [y for i, s_ in enumerate(stmts) for y in (splice[i] if i in splice else [s_])]
+
+        # plain field reads x.f
+        class R(ast.NodeTransformer):
+            def visit_Attribute(self, node):
+                if isinstance(node.value, ast.Name) and node.value.id in objs and node.attr in objs[node.value.id][2] and node.attr not in objs[node.value.id][0].methods:
+                    return ast.copy_location(ast.Name(id=f"{node.value.id}__{node.attr.strip('_')}", ctx=node.ctx), node)
+                return self.generic_visit(node)
+        stmts = [R().visit(s_) for s_ in stmts]
+        return stmts, look2
+
     def _project_nested(self, stmts, module):
         """_project_helper_objects in every block"""
         stmts = self._project_helper_objects(stmts, module)
@@ -2670,6 +2812,7 @@ class Canon:
         b = inline_guard_helpers(b, look)         # if not helper(..): raise ..  with a boolean helper that returns from inside a loop
         look.context = b
         b = lift_walrus(lift_ifexp(b))
+        b, look = self._sroa(b, module, look)
         inl = Inliner(look)
         b = inl.tail_generator_delegation(b, (fn.name,))
         b = inl.rec(b, inl.depth, (fn.name,))
